@@ -85,6 +85,10 @@ def observe(m):
     o["levels"] = {k: _tolist(v) for k, v in m.get_steady_levels(unpack_singleton=False).items()}
     o["changes"] = {k: _tolist(v) for k, v in m.get_steady_changes(unpack_singleton=False).items()}
     o["equations"] = list(m.get_equations())
+    try:
+        o["steady_equations"] = list(m.get_steady_equations())
+    except Exception:
+        o["steady_equations"] = None
     o["description"] = str(m.get_description())
     o["tolerance"] = {k: float(v) for k, v in dict(m.get_tolerance()).items()}
     o["logly"] = dict(m.get_log_status())
@@ -450,20 +454,28 @@ def check_portable_without_transition_shocks(c, seed):
         lines += ["!log-variables", "    " + ", ".join(f"x{i}" for i in range(n) if logs[i])]
     lines.append("!transition-equations")
     for i in range(n):
-        lines.append(f"    x{i} = x{i}[-1]^rho{i}*exp(c{i});" if logs[i] else f"    x{i} = rho{i}*x{i}[-1] + c{i};")
+        eq_ = f"x{i} = x{i}[-1]^rho{i}*exp(c{i})" if logs[i] else f"x{i} = rho{i}*x{i}[-1] + c{i}"
+        if g.random() < 0.4:
+            # a separate steady form (dynamic !! steady): the two forms must come back in their own places
+            eq_ += f" !! x{i} = " + (f"exp(c{i}/(1-rho{i}))" if logs[i] else f"c{i}/(1-rho{i})")
+        lines.append(f"    {eq_};")
     lines += ["!measurement-equations", "    y0 = " + " + ".join(f"0.5*x{i}" for i in range(n)) + " + w0;"]
     src = "\n".join(lines) + "\n"
     case = {"kind": "portable-shockless", "seed": int(seed), "source": src}
     try:
         with rt.quiet():
-            m = ir.Simultaneous.from_string(src, linear=False, flat=flat)
+            deterministic = bool(g.random() < 0.3)
+            m = ir.Simultaneous.from_string(src, linear=False, flat=flat, deterministic=deterministic)
+            if deterministic:
+                vals_std_ok = False
             if nv > 1:
                 m.alter_num_variants(nv)
             vals = {}
             for i in range(n):
                 vals[f"rho{i}"] = [float(np.round(g.uniform(0.2, 0.8), 3)) for _ in range(nv)]
                 vals[f"c{i}"] = [float(np.round(g.uniform(0.1, 0.9), 3)) for _ in range(nv)]
-            vals["std_w0"] = [float(np.round(g.uniform(0.1, 2.0), 3)) for _ in range(nv)]
+            if not deterministic:
+                vals["std_w0"] = [float(np.round(g.uniform(0.1, 2.0), 3)) for _ in range(nv)]
             m.assign(**{k: (v if nv > 1 else v[0]) for k, v in vals.items()})
             m.assign(**{f"x{i}": (1.0, 1.0 if logs[i] else 0.0) for i in range(n)})
             m.solve_steady()
@@ -480,7 +492,7 @@ def check_portable_without_transition_shocks(c, seed):
         c.violation(f"portable:shockless-roundtrip:raised:{type(exc).__name__}", f"{type(exc).__name__}: {str(exc)[:200]}", case=case)
         return
     a, b = observe(m), observe(m2)
-    for part in ("names", "nvar", "logly", "equations", "flags", "params", "stds"):   # (steady values are not among the things promised)
+    for part in ("names", "nvar", "logly", "equations", "steady_equations", "flags", "params", "stds"):   # (steady values are not among the things promised)
         ok, why = same(a[part], b[part], tol=1e-12)
         if not ok:
             c.violation(f"portable:roundtrip:{part}-differ", f"{part}: {why} ({nv} variants)", case=case)
